@@ -62,6 +62,16 @@ class Ctx:
         if count < minimum:
             self.anchor_missing(rule, "%s: matched %d instance(s), hand-confirmed floor is %d" % (what, count, minimum))
 
+    def guarded(self, rule, fn, *args, **kw):
+        """run one rule; a missing anchor or an engine error fails that rule closed without
+        hiding the results of the others"""
+        try:
+            return fn(*args, **kw)
+        except AnchorMissing as e:
+            self.anchor_missing(rule, str(e))
+        except Exception as e:
+            self.anchor_missing(rule, "engine error: %s\n%s" % (e, traceback.format_exc()[-1200:]))
+
     def note(self, s):
         self.notes.append(s)
 
